@@ -124,7 +124,7 @@ pub fn check(tape: &[u32], thorough: bool) -> CheckResult {
     }
     // file-backed reader
     {
-        let dir = format!("{}/harness/target/c14-scratch", verif_dir());
+        let dir = format!("{}/c14-scratch", target_dir());
         let _ = std::fs::create_dir_all(&dir);
         let path = format!("{}/{}-{:016x}.ase", dir, std::process::id(), hash_bytes(bytes) ^ hash_bytes(&(tape.len() as u64).to_le_bytes()));
         std::fs::write(&path, bytes).map_err(|e| Failure::new("harness", format!("scratch write failed: {}", e)))?;
